@@ -167,6 +167,24 @@ def mk_place(base, projs):
         projs = projs[1:]
     if not projs:
         return base
+    # projecting a field out of a freshly built aggregate yields that operand
+    while projs and base[0] == "agg" and projs[0][0] == "field":
+        name = projs[0][3]
+        ops = base[5]
+        idx = None
+        if base[4] and name in base[4]:
+            idx = base[4].index(name)
+        elif base[1] == "tuple" and name.isdigit() and int(name) < len(ops):
+            idx = int(name)
+        if idx is None or idx >= len(ops):
+            break
+        base = ops[idx]
+        projs = projs[1:]
+        while projs and projs[0] == ("deref",) and base[0] == "ref":
+            base = base[1]
+            projs = projs[1:]
+    if not projs:
+        return base
     if base[0] == "place":
         return ("place", base[1], base[2] + projs)
     return ("place", base, projs)
